@@ -295,6 +295,26 @@ func (w *world17) step(op Op17, probe func(string)) (f *fail17, skipped bool) {
 			}
 			img = big.SubImage(image.Rect(ox, oy, ox+op.W, oy+op.H))
 		case 1:
+			if op.V&32 != 0 {
+				// a gray YCbCr frame (Cb = Cr = 128: luminance is exactly Y), as a
+				// SubImage with a non-zero origin of a larger frame
+				pad := 1 + int(op.V>>6)%5
+				g := image.NewYCbCr(image.Rect(0, 0, op.W+2*pad, op.H+2*pad), image.YCbCrSubsampleRatio444)
+				for i := range g.Y {
+					g.Y[i] = byte(r.Intn(256))
+				}
+				for i := range g.Cb {
+					g.Cb[i], g.Cr[i] = 128, 128
+				}
+				for y := 0; y < op.H; y++ {
+					for x := 0; x < op.W; x++ {
+						g.Y[g.YOffset(x+pad, y+pad)] = px[y][x]
+					}
+				}
+				probe("probe.ycbcr_subimage")
+				img = g.SubImage(image.Rect(pad, pad, pad+op.W, pad+op.H))
+				break
+			}
 			pad := 0
 			if op.V&4 != 0 {
 				pad = 2
@@ -803,6 +823,19 @@ func (w *world17) binarize(op Op17, s gozxing.LuminanceSource, m *viewModel, pro
 			return fail("notfound", "local method rejected a pure black/white %dx%d image", m.w, m.h)
 		}
 		probe("probe.no_contrast_rejected")
+		// asking again must not turn the rejection into a (wrong) matrix
+		if mAgain, eAgain := bmp.GetBlackMatrix(); eAgain == nil {
+			if mAgain == nil {
+				return fail("cache", "second GetBlackMatrix after a rejection returned neither matrix nor error")
+			}
+			if bl {
+				if msg := checkBlack(mAgain, m, name+" (second call after a rejection)"); msg != "" {
+					return fail("bilevel", "%s", msg)
+				}
+			}
+		} else if !isNotFound(eAgain) {
+			return fail("error-kind", "second GetBlackMatrix (%s) returned %T %v", name, eAgain, eAgain)
+		}
 	} else {
 		if bl {
 			if msg := checkBlack(m1, m, name); msg != "" {
@@ -818,6 +851,26 @@ func (w *world17) binarize(op Op17, s gozxing.LuminanceSource, m *viewModel, pro
 	r := kit.NewRNG(op.V)
 	if f, sk := checkRows(bmp, m, bl, r, probe, fail, ""); f != nil {
 		return f, sk
+	}
+	// crops the model rejects must be rejected by the bitmap too (same size as
+	// the view but shifted, negative origin, reaching outside the data)
+	if bmp.IsCropSupported() {
+		type rect struct{ l, t, w, h int }
+		for _, q := range []rect{{1 + r.Intn(3), 0, m.w, m.h}, {0, 1 + r.Intn(3), m.w, m.h}, {-1 - r.Intn(3), 0, m.w, m.h}, {0, -1, m.w, m.h}, {0, 0, m.w, m.h}} {
+			valid := q.l >= 0 && q.t >= 0 && m.l+q.l+q.w <= m.d.w && m.t+q.t+q.h <= m.d.h
+			cb, err := bmp.Crop(q.l, q.t, q.w, q.h)
+			if valid != (err == nil && cb != nil) {
+				return fail("crop", "BinaryBitmap.Crop(%d,%d,%d,%d) of a %dx%d view at (%d,%d) of %dx%d data: err=%v, model says valid=%v", q.l, q.t, q.w, q.h, m.w, m.h, m.l, m.t, m.d.w, m.d.h, err, valid)
+			}
+			if valid {
+				cm := &viewModel{d: m.d, l: m.l + q.l, t: m.t + q.t, w: q.w, h: q.h, inv: m.inv, kind: m.kind}
+				if mm, err := cb.GetBlackMatrix(); err == nil && cm.bilevel() {
+					if msg := checkBlack(mm, cm, name+" after a same-size Crop"); msg != "" {
+						return fail("bilevel-crop", "%s", msg)
+					}
+				}
+			}
+		}
 	}
 	// crop: the cached matrix must not survive
 	if m.w >= 4 && m.h >= 4 && bmp.IsCropSupported() {
